@@ -1,5 +1,5 @@
 import BnpVerif.Model.C09
-import BnpVerif.Props.C08
+import BnpVerif.Props.C08Core
 /-! C09 — genomic arrays are exact, lossless views of dense per-base arrays: helper lemmas and the
 property theorems. -/
 namespace C09
